@@ -47,6 +47,20 @@ def _case_try(specs, abbr, word):
     return ' '.join(toks)
 
 
+def _case_staged(steps, abbr, word):
+    """definitions and look-ups in the given interleaving: steps = [('d', spec) | ('p', word)]"""
+    toks = ['H:f=%d' % (0 if abbr else 0x80)]
+    n = 0
+    for kind, x in steps:
+        if kind == 'd':
+            toks.append('arg:%s:b%d:init=0' % (x, n))
+            n += 1
+        else:
+            toks.append('probe:' + x.encode().hex())
+    toks.append(A.argv_tok([word] if word else []))
+    return ' '.join(toks)
+
+
 def _h(sel):
     """deterministic hash of a selection (the built-in hash of strings changes from run to run)"""
     return sum((i + 1) * sum(map(ord, x)) for i, x in enumerate(sel))
@@ -68,6 +82,27 @@ def gen_cases(tier, rng):
             for abbr in (True, False):
                 for w in fwords:
                     cases.append(_case_try(list(sel), abbr, w))
+    # look-ups between the definitions (getArgHandler / argumentExists before all arguments are defined): a look-up
+    # is a function of the table as it stands.  (a) one look-up between two definitions, then the same or another
+    # word on the command line; (b) every word looked up after every definition, in rotating order
+    sfam = ['input', 'inp', 'input-a', 'inpu', 'i,in', 'o,out', 'i']
+    swords = ['--inp', '--input', '--in', '--inpu', '--input-', '-i', '--o', '--out', '--x']
+    for d1, d2 in itertools.permutations(sfam, 2):
+        for abbr in (True, False):
+            for w in swords[:6]:
+                for w2 in ([w] if tier == 'quick' else [w, '--inp', '--in']):
+                    cases.append(_case_staged([('d', d1), ('p', w), ('d', d2)], abbr, w2))
+    for sel in itertools.permutations(sfam, 3):
+        if tier == 'quick' and _h(sel) % 3 != 0:
+            continue
+        for abbr in (True, False):
+            steps = []
+            for j, d in enumerate(sel):
+                steps.append(('d', d))
+                r = (_h(sel) + j) % len(swords)
+                steps += [('p', w) for w in swords[r:] + swords[:r]]
+            for w in (swords[_h(sel) % 6], swords[(_h(sel) + 3) % 6]):
+                cases.append(_case_staged(steps, abbr, w))
     # sub-group arguments live in a container of their own: their keys and abbreviations obey the same rules
     for abbr in (True, False):
         for main in (['i,input'], ['in'], ['i,input', 'inp'], []):
@@ -134,6 +169,19 @@ def _parse(spec):
     return tuple(out)
 
 
+def _designates(seen_s, seen_l, abbr, word):
+    """the slot the word designates under the property, None = rejected (unknown or ambiguous)"""
+    if word.startswith('--'):
+        w = word[2:]
+        if len(w) == 1:
+            return seen_s.get(w)          # --a is read as the short key a
+        if w in seen_l:
+            return seen_l[w]
+        m = [sl for l, sl in seen_l.items() if l.startswith(w)] if abbr else []
+        return m[0] if len(m) == 1 else None
+    return seen_s.get(word[1:])
+
+
 def spec_check(case, ir, mr):
     if ir is None:
         return 'no result from the implementation'
@@ -154,6 +202,8 @@ def spec_check(case, ir, mr):
         elif t.startswith('arg:'):
             _, spec, slot, opts = t.split(':', 3)
             defs.append((_parse(spec), slot, 'try' in opts.split('/')))
+        elif t.startswith('probe:'):
+            defs.append(('probe', bytes.fromhex(t[6:]).decode(), False))
     word = bytes.fromhex(toks[-1][5:]).decode() if toks[-1] != 'argv:-' else None
     if any(k in ('odd',) for k, _, _ in defs):
         return None          # outside the clean family: no judgement
@@ -161,7 +211,11 @@ def spec_check(case, ir, mr):
     # definition: refused iff a short or long key is already taken or the spec is malformed
     seen_s, seen_l = {}, {}
     refused = False
+    expected_probes = []
     for k, slot, tolerated in defs:
+        if k == 'probe':
+            expected_probes.append((slot, _designates(seen_s, seen_l, abbr, slot)))
+            continue
         if k == 'bad':
             if tolerated:
                 continue      # the refusal is survived: nothing of this definition may remain
@@ -181,6 +235,14 @@ def spec_check(case, ir, mr):
         return None if outcome == 'setup' else 'a definition whose key is already taken (or malformed) was accepted'
     if outcome == 'setup':
         return 'a legal set of definitions was refused'
+    if expected_probes:
+        got = [x for x in ir.split(' ## ')[0].split(' ') if x.startswith('probes=')]
+        got = got[0][7:].split(',') if got else []
+        if len(got) != len(expected_probes):
+            return 'look-ups between the definitions: %d answers for %d look-ups' % (len(got), len(expected_probes))
+        for (w, e), g in zip(expected_probes, got):
+            if (e is None and g not in ('none', 'amb')) or (e is not None and g != e):
+                return 'looked up between the definitions, key %s designates %s but the answer was %s' % (w, e or 'nothing', g)
     if word is None:
         return None
     if word.startswith('--'):
